@@ -1,6 +1,6 @@
 (* C12 - hashmap.nelua, part 4: lookup, insertion (_at), assignment, removal, clear, value update:
    each preserves the representation invariant and acts on the bindings as the finite-map operation. *)
-From Coq Require Import ZArith List Bool Lia Arith.
+From Coq Require Import ZArith List Bool Lia Arith Permutation.
 From C12 Require Import Gen Model ProofsBase ProofsVec ProofsAL ProofsHM1 ProofsHM2 ProofsHM3.
 Import ListNotations.
 
@@ -29,7 +29,6 @@ Section HM4.
   Variable vdflt : V.
   Variable keqb : K -> K -> bool.
   Variable khash : K -> Z.
-  Hypothesis keqb_refl : forall a, keqb a a = true.
   Hypothesis keqb_sym : forall a b, keqb a b = keqb b a.
   Hypothesis keqb_trans : forall a b c, keqb a b = true -> keqb b c = true -> keqb a c = true.
   Hypothesis hash_coh : forall a b, keqb a b = true -> khash a = khash b.
@@ -325,6 +324,7 @@ Section HM4.
       nth_error ns2 fi = Some (match last_or None (ch b) with Some p => if p =? fi then set_next K V (Some fi) (new_node k) else new_node k | None => new_node k end) /\
       KU ns2 /\ hsize m + 1 = length (filter nfilled ns2) /\
       (forall k', al_find k' (abs_of ns2) = if keqb k' k then Some (k, vdflt) else al_find k' (hm_abs m)) /\
+      Permutation (abs_of ns2) ((k, vdflt) :: hm_abs m) /\
       (hsize m + 1 < length (hnodes m) ->
        hm_inv_w (mkhm K V bs2 ns2 (hsize m + 1) (nnext ndf)) (fun b' => if b' =? b then ch b ++ [fi] else ch b') fl').
   Proof.
@@ -431,6 +431,7 @@ Section HM4.
     assert (hsize m + 1 = length (filter nfilled ns2)) as HS2.
     { rewrite filled_len_abs, HA2, (inv_size _ _ _ _ _ _ _ I), filled_len_abs. fold (hm_abs m). rewrite HA0, !app_length. cbn. lia. }
     split; [assumption|]. split; [assumption|].
+    split; [rewrite HA2, HA0; apply Permutation_sym; apply Permutation_middle|].
     (* the invariant when there is still room *)
     intros Hrm.
     constructor; cbn [Model.hbuckets Model.hnodes Model.hsize Model.hfree]; rewrite ?Lb2, ?Ln2.
@@ -469,11 +470,10 @@ Section HM4.
   Lemma hm_at_ok : forall m k, hm_inv m ->
     hm_at K V kdflt vdflt keqb khash k m = Trap TrapOverflow \/
     exists m1 i nd, hm_at K V kdflt vdflt keqb khash k m = Ok (m1, i) /\ hm_inv m1 /\
-      nth_error (hnodes m1) i = Some nd /\ nfilled nd = true /\ keqb k (nkey nd) = true /\
+      nth_error (hnodes m1) i = Some nd /\ nfilled nd = true /\
       match al_find k (hm_abs m) with
-      | Some kv => hm_abs m1 = hm_abs m /\ (nkey nd, nval nd) = kv
-      | None => nkey nd = k /\ nval nd = vdflt /\
-                forall k', al_find k' (hm_abs m1) = if keqb k' k then Some (k, vdflt) else al_find k' (hm_abs m)
+      | Some kv => hm_abs m1 = hm_abs m /\ (nkey nd, nval nd) = kv /\ keqb k (nkey nd) = true
+      | None => nkey nd = k /\ nval nd = vdflt /\ Permutation (hm_abs m1) ((k, vdflt) :: hm_abs m)
       end.
   Proof.
     intros m k Hinv. unfold hm_at.
@@ -484,7 +484,7 @@ Section HM4.
       [|left; reflexivity|].
     { destruct (Nat.eqb_spec (length (hbuckets m)) 0).
       - destruct Hinv as (ch & fl & I).
-        destruct (hm_rehash_ok K V kdflt vdflt keqb khash keqb_refl keqb_sym keqb_trans HM_INIT_n m (KU_of_inv _ _ _ I) (inv_size _ _ _ _ _ _ _ I))
+        destruct (hm_rehash_ok K V kdflt vdflt keqb khash keqb_sym HM_INIT_n m (KU_of_inv _ _ _ I) (inv_size _ _ _ _ _ _ _ I))
           as [(-> & _)|(m' & -> & I' & A & _ & B & _)]; [left; reflexivity|right].
         exists m'. pose proof hm_init_pos. split; [reflexivity|]. split; [assumption|]. split; [assumption|lia].
       - right. exists m. split; [reflexivity|]. split; [assumption|]. split; [reflexivity|lia]. }
@@ -495,11 +495,11 @@ Section HM4.
     destruct (find_in (hnodes m0) k (ch b) None) as [[i|] prev].
     - (* found *)
       destruct FA as (nd & l1 & l2 & Hn & F & Q & AF & _). right. exists m0, i, nd.
-      split; [reflexivity|]. split; [exists ch, fl; assumption|]. split; [assumption|]. split; [assumption|]. split; [assumption|].
+      split; [reflexivity|]. split; [exists ch, fl; assumption|]. split; [assumption|]. split; [assumption|].
       rewrite <- HA0, AF. auto.
     - (* insert *)
       destruct FA as (AF & Hprev). subst prev.
-      destruct (hm_insert_ok m0 ch fl k I HB0 AF) as (fi & ndf & fl' & bs2 & ns2 & Hfree & HfiL & Hndf & -> & Hcode & Lb2 & Ln2 & Nfi & U2 & HS2 & HF2 & Hinv2).
+      destruct (hm_insert_ok m0 ch fl k I HB0 AF) as (fi & ndf & fl' & bs2 & ns2 & Hfree & HfiL & Hndf & -> & Hcode & Lb2 & Ln2 & Nfi & U2 & HS2 & HF2 & HP2 & Hinv2).
       fold b in Hcode, Nfi, Hinv2.
       rewrite Hfree. destruct (Nat.leb_spec (length (hnodes m0)) fi); [lia|].
       rewrite (sget_Some _ _ _ _ Hndf). cbn [rbind]. rewrite sset_ok by assumption. cbn [rbind].
@@ -510,7 +510,7 @@ Section HM4.
       destruct (Nat.leb_spec (length (hbuckets m0) * HM_MAXLF_n) ((hsize m0 + 1) * 100)) as [Htrig|Hno].
       + (* growth rehash *)
         set (m2 := mkhm K V bs2 ns2 (hsize m0 + 1) (nnext ndf)).
-        destruct (hm_rehash_ok K V kdflt vdflt keqb khash keqb_refl keqb_sym keqb_trans
+        destruct (hm_rehash_ok K V kdflt vdflt keqb khash keqb_sym
                     (ceilidiv ((hsize m0 + 1) * HM_GROW_n) HM_MAXLF_n) m2 U2 HS2)
           as [(-> & _)|(m3 & -> & I3 & A3 & S3 & _ & B3 & P3)]; [left; reflexivity|right].
         cbn [rbind].
@@ -523,16 +523,14 @@ Section HM4.
           lia. }
         destruct (P3 Hle fi y Hy Fy) as (y3 & Hy3 & K3 & V3 & F3).
         exists m3, fi, y3. split; [reflexivity|]. split; [assumption|]. split; [assumption|]. split; [congruence|].
-        split; [rewrite <- K3, Ky; apply keqb_refl|].
         rewrite <- HA0, AF. split; [congruence|]. split; [congruence|].
-        intros k'. rewrite A3. unfold ProofsHM2.hm_abs at 1. cbn [m2 Model.hnodes]. apply HF2.
+        rewrite A3. unfold ProofsHM2.hm_abs at 1. cbn [m2 Model.hnodes]. exact HP2.
       + right. cbn [rbind].
         assert (hsize m0 + 1 < length (hnodes m0)) as Hrm.
         { pose proof (inv_cap _ _ _ _ _ _ _ I) as C1. unfold ProofsHM1.MAXLF in C1. nia. }
         exists (mkhm K V bs2 ns2 (hsize m0 + 1) (nnext ndf)), fi, y.
         split; [reflexivity|]. split; [eexists; eexists; apply Hinv2; assumption|]. split; [assumption|]. split; [assumption|].
-        split; [rewrite Ky; apply keqb_refl|].
-        rewrite <- HA0, AF. split; [assumption|]. split; [assumption|]. exact HF2.
+        rewrite <- HA0, AF. split; [assumption|]. split; [assumption|]. exact HP2.
   Qed.
 
   (* ---- assignment m[k] = v and inserting read m[k] *)
@@ -560,45 +558,55 @@ Section HM4.
     assert (keqb (fst p) kn = true) by (eapply keqb_trans; [rewrite keqb_sym; exact Q2|exact Q]). congruence.
   Qed.
 
+  Lemma nomatch_before : forall A kn old C k, keys_nodup (A ++ (kn, old) :: C) -> keqb k kn = true ->
+    forall x, In x A -> keqb k (fst x) = false.
+  Proof.
+    intros A kn old C k ND Q x Hx. apply keys_nodup_app in ND. destruct ND as (_ & _ & X).
+    specialize (X x (kn, old) Hx (or_introl eq_refl)). cbn [fst] in X.
+    destruct (keqb k (fst x)) eqn:E; [|reflexivity].
+    assert (keqb (fst x) kn = true) by (eapply keqb_trans; [rewrite keqb_sym; exact E|exact Q]). congruence.
+  Qed.
+
   Lemma hm_set_ok : forall m k v, hm_inv m ->
     hm_set K V kdflt vdflt keqb khash k v m = Trap TrapOverflow \/
     exists m', hm_set K V kdflt vdflt keqb khash k v m = Ok m' /\ hm_inv m' /\
-      forall k', al_find k' (hm_abs m') = if keqb k' k then Some (stored_key k (hm_abs m), v) else al_find k' (hm_abs m).
+      Permutation (hm_abs m') (al_set K V keqb k v (hm_abs m)).
   Proof.
     intros m k v Hinv. unfold hm_set.
-    destruct (hm_at_ok m k Hinv) as [->|(m1 & i & nd & -> & (ch & fl & I1) & Hn & F & Q & SP)]; [left; reflexivity|right].
+    destruct (hm_at_ok m k Hinv) as [->|(m1 & i & nd & -> & (ch & fl & I1) & Hn & F & SP)]; [left; reflexivity|right].
     cbn [rbind]. rewrite (sget_Some _ _ _ _ Hn). cbn [rbind].
     pose proof (nth_error_Some_lt _ _ _ _ Hn) as Li. rewrite sset_ok by assumption. cbn [rbind].
     eexists. split; [reflexivity|]. split.
     - exists ch, fl. apply (inv_kfn m1 ch fl _ I1). eapply kfn_upd; eauto.
-    - intros k'. unfold ProofsHM2.hm_abs at 1. cbn [Model.hnodes].
+    - unfold ProofsHM2.hm_abs at 1. cbn [Model.hnodes].
       rewrite abs_upd by assumption. unfold abs1 at 1. cbn [Model.nfilled Model.set_val Model.nkey Model.nval]. rewrite F.
-      pose proof (abs_nodup _ _ _ I1) as ND1. unfold ProofsHM2.hm_abs in ND1. rewrite (abs_split _ _ _ Hn) in ND1.
-      unfold abs1 in ND1. rewrite F in ND1. cbn [app] in *.
-      rewrite (al_find_replace _ _ _ _ v k' ND1).
-      assert (abs_of (firstn i (hnodes m1)) ++ (nkey nd, nval nd) :: abs_of (skipn (S i) (hnodes m1)) = hm_abs m1) as EA.
+      pose proof (abs_nodup _ _ _ I1) as ND1.
+      assert (hm_abs m1 = abs_of (firstn i (hnodes m1)) ++ (nkey nd, nval nd) :: abs_of (skipn (S i) (hnodes m1))) as EA.
       { unfold ProofsHM2.hm_abs. rewrite (abs_split _ _ _ Hn). unfold abs1. rewrite F. reflexivity. }
-      rewrite EA. rewrite <- (keqb_congr_r K keqb keqb_sym keqb_trans k (nkey nd) k' Q).
-      unfold ProofsAL.stored_key. destruct (al_find k (hm_abs m)) as [kv|] eqn:AF.
-      + destruct SP as (-> & <-). cbn [fst]. reflexivity.
-      + destruct SP as (-> & _ & HF). rewrite HF. destruct (keqb k' k); reflexivity.
+      set (A := abs_of (firstn i (hnodes m1))) in *. set (C := abs_of (skipn (S i) (hnodes m1))) in *. cbn [app].
+      destruct (al_find k (hm_abs m)) as [kv|] eqn:AF.
+      + destruct SP as (E1 & <- & Q). rewrite <- E1, EA. rewrite EA in ND1.
+        rewrite (al_set_split K V keqb k v A (nkey nd, nval nd) C (nomatch_before _ _ _ _ _ ND1 Q) Q). apply Permutation_refl.
+      + destruct SP as (Kk & Vk & P1). rewrite (al_set_none K V keqb k v _ AF). rewrite Kk, Vk in EA.
+        rewrite EA in P1. rewrite Kk.
+        eapply Permutation_trans; [apply Permutation_sym; apply Permutation_middle|].
+        eapply Permutation_trans; [|apply Permutation_cons_append].
+        apply perm_skip. apply Permutation_sym in P1. apply Permutation_cons_app_inv in P1. apply Permutation_sym. assumption.
   Qed.
 
   Lemma hm_get_ok : forall m k, hm_inv m ->
     hm_get K V kdflt vdflt keqb khash k m = Trap TrapOverflow \/
     exists m', hm_get K V kdflt vdflt keqb khash k m =
                  Ok (m', match al_find k (hm_abs m) with Some kv => snd kv | None => vdflt end) /\ hm_inv m' /\
-      match al_find k (hm_abs m) with
-      | Some _ => hm_abs m' = hm_abs m
-      | None => forall k', al_find k' (hm_abs m') = if keqb k' k then Some (k, vdflt) else al_find k' (hm_abs m)
-      end.
+      Permutation (hm_abs m') (match al_find k (hm_abs m) with Some _ => hm_abs m | None => al_set K V keqb k vdflt (hm_abs m) end).
   Proof.
     intros m k Hinv. unfold hm_get.
-    destruct (hm_at_ok m k Hinv) as [->|(m1 & i & nd & -> & I1 & Hn & F & Q & SP)]; [left; reflexivity|right].
+    destruct (hm_at_ok m k Hinv) as [->|(m1 & i & nd & -> & I1 & Hn & F & SP)]; [left; reflexivity|right].
     cbn [rbind]. rewrite (sget_Some _ _ _ _ Hn). cbn [rbind].
-    exists m1. destruct (al_find k (hm_abs m)) as [kv|].
-    - destruct SP as (A & <-). cbn [snd]. auto.
-    - destruct SP as (_ & -> & HF). auto.
+    exists m1. destruct (al_find k (hm_abs m)) as [kv|] eqn:AF.
+    - destruct SP as (A & <- & _). cbn [snd]. rewrite A. auto.
+    - destruct SP as (_ & -> & P1). split; [reflexivity|]. split; [assumption|].
+      rewrite (al_set_none K V keqb k vdflt _ AF). eapply Permutation_trans; [exact P1|apply Permutation_cons_append].
   Qed.
 
   (* ---- remove / erase *)
@@ -609,7 +617,7 @@ Section HM4.
 
   Lemma hm_remove_ok : forall m k, hm_inv m ->
     exists m', hm_remove K V kdflt vdflt keqb khash k m = Ok (m', al_get K V keqb k (hm_abs m)) /\ hm_inv m' /\
-      (forall k', al_find k' (hm_abs m') = if keqb k' k then None else al_find k' (hm_abs m)) /\
+      hm_abs m' = al_remove K V keqb k (hm_abs m) /\
       match al_find k (hm_abs m) with
       | None => m' = m
       | Some _ => exists i nd, nth_error (hnodes m) i = Some nd /\ nfilled nd = true /\ keqb k (nkey nd) = true /\
@@ -620,15 +628,14 @@ Section HM4.
     destruct (Nat.eq_dec (length (hbuckets m)) 0) as [E|E].
     { rewrite hm_find_empty by assumption. cbn [rbind]. rewrite (abs_empty _ _ _ I E). cbn.
       exists m. split; [reflexivity|]. split; [exists ch, fl; assumption|]. split; [|reflexivity].
-      intros k'. rewrite (abs_empty _ _ _ I E). cbn. destruct (keqb k' k); reflexivity. }
+      rewrite (abs_empty _ _ _ I E). reflexivity. }
     assert (0 < length (hbuckets m)) as HB by lia.
     destruct (hm_find_spec K V keqb khash m ch fl k I HB) as (Hb & ->). cbn [rbind].
     pose proof (find_abs m ch fl k I HB) as FA. cbn zeta in FA.
     set (b := hashmod (khash k) (length (hbuckets m))) in *.
     destruct (find_in (hnodes m) k (ch b) None) as [[i|] prev].
     2:{ destruct FA as (AF & _). rewrite AF. cbn. exists m. split; [reflexivity|]. split; [exists ch, fl; assumption|].
-        split; [|reflexivity]. intros k'. destruct (keqb k' k) eqn:Q; [|reflexivity].
-        rewrite (al_find_congr K V keqb keqb_sym keqb_trans k' k _ Q). assumption. }
+        split; [|reflexivity]. symmetry. apply al_remove_none. assumption. }
     destruct FA as (nd & l1 & l2 & Hn & F & Q & AF & Ech & Hprev). subst prev. rewrite AF. cbn [option_map snd].
     rewrite (sget_Some _ _ _ _ Hn). cbn [rbind].
     pose proof (nth_error_Some_lt _ _ _ _ Hn) as Li.
@@ -695,17 +702,9 @@ Section HM4.
       - split; [rewrite !skipn_length; lia|]. intros j x Hx. rewrite nthe_skipn in Hx |- *.
         destruct (KV1 _ x Hx) as (y & A & B & _). eauto. }
     pose proof (abs_nodup _ _ _ I) as ND0. rewrite HA0 in ND0.
-    assert (forall k', al_find k' (abs_of ns2) = if keqb k' k then None else al_find k' (hm_abs m)) as HF2.
-    { intros k'. rewrite HA2, HA0, !al_find_app. cbn [ProofsAL.al_find fst].
-      rewrite (keqb_congr_r K keqb keqb_sym keqb_trans k (nkey nd) k' Q).
-      apply keys_nodup_app in ND0. destruct ND0 as (_ & NDc & X). apply keys_nodup_cons in NDc. destruct NDc as (Y & _).
-      destruct (keqb k' (nkey nd)) eqn:Q2; [|reflexivity].
-      destruct (al_find k' (abs_of (firstn i (hnodes m)))) eqn:EA.
-      - exfalso. apply al_find_some in EA. destruct EA as (Hin & Q3).
-        specialize (X p (nkey nd, nval nd) Hin (or_introl eq_refl)). cbn [fst] in X.
-        assert (keqb (fst p) (nkey nd) = true) by (eapply keqb_trans; [rewrite keqb_sym; exact Q3|exact Q2]). congruence.
-      - apply al_find_none. intros kv Hkv. specialize (Y kv Hkv). cbn [fst] in Y.
-        rewrite (keqb_congr_l K keqb keqb_sym keqb_trans k' (nkey nd) (fst kv) Q2). assumption. }
+    assert (abs_of ns2 = al_remove K V keqb k (hm_abs m)) as HF2.
+    { rewrite HA2, HA0. symmetry. apply al_remove_split; [|exact Q].
+      apply (nomatch_before _ (nkey nd) (nval nd) (abs_of (skipn (S i) (hnodes m)))); assumption. }
     assert (forall j y, nth_error ns2 j = Some y -> (j = i /\ y = z) \/
               (j <> i /\ exists x, nth_error (hnodes m) j = Some x /\ same_kvf x y /\ (nfilled x = false -> y = x))) as REV.
     { intros j y Hy. destruct (Nat.eq_dec j i).
